@@ -373,6 +373,9 @@ extern "C"
         sim::clock_read_point();
         return 1'000'000'000LL + sim::sim_now_ns();
     }
+    // std::random_device (seed of zobrist::init) replaced at link time: a fixed seed, so that the engine's own
+    // table initialisation is a deterministic, real component of the simulation (zobrist mode 4)
+    unsigned int __wrap__ZNSt13random_device9_M_getvalEv(void*) { return 0x5EED1234u; }
     int64_t __wrap__ZNSt6chrono3_V212system_clock3nowEv()
     {
         sim::W_clock_reads++;
@@ -540,9 +543,21 @@ void World::infra(const std::string& what)
 }
 
 // ---------------------------------------------------------- zobrist fill --
+static uint64_t g_real_piece[engine::PIECE_NUM][engine::SQUARE_NUM];
+static uint64_t g_real_castling[16], g_real_side, g_real_ep[8];
+
 static void fill_zobrist(Rng& r, int mode)
 {
     using namespace engine;
+    if (mode == 4)
+    {
+        // the table produced by the engine's own zobrist::init() (captured once at process start)
+        std::memcpy(PIECE_HASH, g_real_piece, sizeof g_real_piece);
+        std::memcpy(CASTLING_HASH, g_real_castling, sizeof g_real_castling);
+        SIDE_HASH = g_real_side;
+        std::memcpy(ENPASSANT_HASH, g_real_ep, sizeof g_real_ep);
+        return;
+    }
     for (uint32_t p = 0; p < PIECE_NUM; ++p)
         for (uint32_t s = 0; s < SQUARE_NUM; ++s) PIECE_HASH[p][s] = r.next();
     for (int i = 0; i < 16; ++i) CASTLING_HASH[i] = r.next();
@@ -660,6 +675,16 @@ void World::gui_note_sent(const std::string& line)
             }
         }
         g.root_has_moves = !g.root.legal().empty();
+        for (auto& sm : g.searchmoves)
+        {
+            ref::RMove tmp;
+            ref::Board rb = g.root;
+            if (!rb.legal_uci(sm, tmp))
+            {
+                infra("script sends searchmoves " + sm + " which is not legal in " + g.root.fen());
+                break;
+            }
+        }
         g.book_active = book_loaded_nonempty;
         gos.push_back(g);
         cur_go = g.index;
@@ -1009,13 +1034,22 @@ void World::check_info(GoRec& g, const std::vector<std::string>& tok, const std:
         {
             for (++i; i < tok.size(); ++i) pv.push_back(tok[i]);
         }
+        else if (k == "string")
+        {
+            counters["probe_info_string"]++;
+            return;  // free text, legal UCI
+        }
+        else if ((k == "seldepth" || k == "multipv" || k == "currmovenumber" || k == "cpuload" || k == "sbhits" || k == "currmove") && i + 1 < tok.size()) i += 2;
+        else if (k == "lowerbound" || k == "upperbound") i += 1;
         else { ok = false; break; }
     }
-    if (!ok || r.depth < 0)
+    if (!ok)
     {
-        violation("C06", "torn-line", "unparseable info line '" + line + "'");
+        // not a torn line by itself (that is decided by which threads wrote it); an info line this oracle cannot read
+        counters["probe_unparsed_info"]++;
         return;
     }
+    if (r.depth < 0) return;  // info without a depth (e.g. currmove only)
     if (g.bestmoves > 0) violation("C09", "info-after-bestmove", "'" + g.line + "': '" + line + "'");
     int64_t expect = g.infos.empty() ? 1 : g.infos.back().depth + 1;
     if (r.depth != expect)
@@ -1443,7 +1477,13 @@ void process_init()
     engine::move_bitboards::init();
     engine::bitbase::init();
     engine::endgame::init();
-    // zobrist::init() (std::random_device) is replaced by fill_zobrist per run
+    // zobrist::init() runs once for real (its random_device is wrapped to a fixed seed); its table is used by
+    // zobrist mode 4, the other modes fill the (external-linkage) tables from the run PRNG
+    engine::zobrist::init();
+    std::memcpy(g_real_piece, engine::PIECE_HASH, sizeof g_real_piece);
+    std::memcpy(g_real_castling, engine::CASTLING_HASH, sizeof g_real_castling);
+    g_real_side = engine::SIDE_HASH;
+    std::memcpy(g_real_ep, engine::ENPASSANT_HASH, sizeof g_real_ep);
     Rng r(12345);
     fill_zobrist(r, 0);
     std::cin.rdbuf(&g_inbuf);
@@ -1508,11 +1548,12 @@ RunResult run_world(const Script& script)
     pthread_attr_destroy(&attr);
 
     const int64_t STEP_CAP = 4000000;
-    const int64_t NODE_HARD_CAP = 6000000;
+    const int64_t NODE_HARD_CAP = 12000000;
     const int64_t B_DRAIN = 200000;
     const int64_t B_TIME = 2000000;
     Task* last = nullptr;
     bool hang = false;
+    bool engine_deadlock = false;
 
     for (;;)
     {
@@ -1537,6 +1578,24 @@ RunResult run_world(const Script& script)
                 continue;
             }
             if (world.hold_search) { world.hold_search = false; continue; }
+            // every live task waits for the output lock and its owner is one of the waiters (or gone):
+            // the engine has dead-locked itself.  The threads cannot be unwound: report and abandon the process.
+            {
+                bool lock_waiters = false;
+                for (int i = 0; i < world.spawned; ++i)
+                    if (world.tasks[i].state == ST_WAIT_LOCK) lock_waiters = true;
+                if (lock_waiters && world.io_owner >= 0)
+                {
+                    Task& ow = world.tasks[world.io_owner];
+                    std::string what = "output lock held by task " + std::to_string(ow.id) + (ow.state == ST_DONE ? " (thread ended)" : ow.state == ST_WAIT_LOCK ? " (itself waiting for it)" : "") +
+                                       "; no thread can ever print again";
+                    world.violation("C06", "output-lock-deadlock", what);
+                    if (world.cur_go >= 0 && world.gos[world.cur_go].bestmoves == 0 && world.gos[world.cur_go].consumed)
+                        world.violation("C05", "no-bestmove", "'" + world.gos[world.cur_go].line + "' never answered: " + what);
+                    engine_deadlock = true;
+                    break;
+                }
+            }
             if (!script_done)
             {
                 // nothing can run and the GUI waits for something that cannot come
@@ -1609,7 +1668,10 @@ RunResult run_world(const Script& script)
                         if (g.entered && st->point_count[PT_GO_AFTER_RESET] > 0 && world.clock_ns > deadline)
                         {
                             if (g.nodes_at_deadline < 0) g.nodes_at_deadline = st->nodes;
-                            if (st->nodes - g.nodes_at_deadline > B_TIME)
+                            // "terminates on its own" has no promptness in it: the engine may poll rarely and it deliberately
+                            // thinks 500 ms on a single-legal-move root whatever the limit says.  Alarm only when it is still
+                            // searching both 2M node visits and a full simulated second after the limit.
+                            if (st->nodes - g.nodes_at_deadline > B_TIME && world.clock_ns > deadline + 1000000000LL)
                             {
                                 world.violation("C09", "time-limit-ignored", "'" + g.line + "': " + std::to_string(st->nodes - g.nodes_at_deadline) + " node visits after the time limit expired, still searching");
                                 st->force_stop = true;
@@ -1640,6 +1702,20 @@ RunResult run_world(const Script& script)
     }
 
     RunResult& res = world.result;
+    if (engine_deadlock)
+    {
+        // threads are parked for ever; the caller must abandon this process after recording the result
+        res.counters["hang"] = 1;
+        res.trace_hash = world.trace_hash;
+        res.sched_sig = world.sched_sig;
+        res.nodes = world.nodes_total;
+        res.sim_ns = world.clock_ns;
+        for (auto& kv : world.counters) res.counters[kv.first] += kv.second;
+        size_t n = world.transcript.size();
+        for (size_t i = n > 6 ? n - 6 : 0; i < n; ++i) res.transcript_tail.push_back(world.transcript[i].text);
+        W = nullptr;
+        return res;
+    }
     if (hang)
     {
         res.infra_error = true;
@@ -1670,7 +1746,7 @@ RunResult run_world(const Script& script)
                 if (!drive(&t, 100000)) { hang = true; break; }
             }
             if (!any || hang) break;
-            if (++guard > 100000) { world.infra("teardown did not converge"); break; }
+            if (++guard > 100000) { world.infra("teardown did not converge"); hang = true; break; }
         }
         if (hang)
         {
